@@ -19,7 +19,8 @@ Definition agree_step (m : res * st) (b : obs) : bool :=
    && Nat.eqb (List.length (hb s)) (List.length (oclients b))
    && seteq key_eqb cnd_eqb (conds s) (oconds b)
    && seteq String.eqb Z.eqb (sums s) (osums b)
-   && seteq String.eqb fcst_eqb (cnts s) (ocnts b))%bool.
+   && seteq String.eqb fcst_eqb (cnts s) (ocnts b)
+   && seteq String.eqb fcst_eqb (cnts s) (ocnts2 b) && (oother b =? 0))%bool.
 
 Definition agree_hist (c : cfg) (tr : list (op * obs)) : bool :=
   forall2b agree_step (run c impl_label_fix impl_acquire_hb (init c) (map fst tr)) (map snd tr).
